@@ -1,28 +1,37 @@
 import Blots.Lemmas.FormatPieces
 import Blots.Lemmas.ExprPegLemmas
 /-
-  The formatter on the OPERATOR FRAGMENT, at text level (C07 / C08 end to end).
+  The formatter on the FRAGMENT of C10 (`Frag`: operators, calls, index and field accesses, list
+  literals, lambdas, conditionals), at text level (C07 / C08 end to end).
 
   `Lemmas/ExprPegLemmas.lean` (C10) has the character-level PEG model of the `expression` rule
-  for the operator fragment (`Frag t`), concrete syntax trees `CST`, the printer's tree
-  `canon t`, and `Relayout t c` (`c` is `canon t` with other ADMISSIBLE layout strings).
+  for the fragment (`Frag t`), concrete syntax trees `CST`, the printer's tree `canon t`, and
+  `Relayout t c` (`c` is `canon t` with other ADMISSIBLE layout strings; for a lambda also: the
+  parentheses around a single parameter may go).
   `Model/Format.lean` has the width-driven formatter `fmtImplP` / `formatExpr`.
 
   Here the two are joined:
-  * `fmtCST w indent t` : the concrete syntax tree `format_expr_impl` writes for a fragment
-                          tree — the printer's tree wherever the single-line form fits, else
-                          `left ⏎ (indent+2 blanks) op ␣ right` for a binary operator (the
-                          `via`/`into`/`where`-with-lambda branch of `binLayout` cannot occur:
-                          a fragment tree has no lambda), the operator sign directly in front of
-                          / behind the (re-formatted) operand for prefix / postfix nodes;
+  * `canonF t`          : `format_single_line t` as a CST (`canonF_text`), a `Relayout` of `t`;
+  * `fmtCST w indent t` : the concrete syntax tree `format_expr_impl` writes — `canonF t`
+                          wherever the single-line form fits, else per node:
+                          `left ⏎ (indent+2 blanks) op ␣ right` for a binary operator (for `via` /
+                          `into` / `where` with a lambda on the right: `left ␣ op ␣ lambda` or
+                          `left ⏎ (indent blanks) op ␣ lambda`), the operator sign directly in
+                          front of / behind the (re-formatted) operand for prefix / postfix nodes,
+                          for a call / list every argument / item on its own line followed by a
+                          comma and the closing bracket on its own line, `e[i]`, `e.name` with the
+                          parts re-formatted and nothing added, for a lambda `head => body`,
+                          `head => (body)` or `head =>⏎ (indent+2) body` (`format_lambda`, which
+                          has no single-line test of its own), for a conditional the two
+                          layouts of `format_conditional_multiline` with flat `else if` chains;
   * `fmtCST_text`       : its text IS `fmtImpl w indent t`, character for character;
-  * `fmtCST_relayout`   : it is a `Relayout` of `t` — the line break in front of an operator
-                          (symbol or word) and the single blank behind it are admissible
-                          (`CST.layOk`) for all 26 operators;
+  * `fmtCST_relayout`   : it is a `Relayout` of `t`: every layout string the formatter writes is
+                          admissible at its position;
   * `formatExpr_cst`    : `formatExpr` adds at most one redundant pair of parentheses
                           (`protect_statement_start`) — a `Wraps`;
   * `formatExpr_parse`  : hence `parseText (formatExpr t mw) = some t`.
 -/
+set_option linter.unusedSimpArgs false
 namespace Blots.FormatFrag
 open Blots.ExprPeg Blots.FormatP Blots.FormatL
 
@@ -30,58 +39,462 @@ open Blots.ExprPeg Blots.FormatP Blots.FormatL
 def fits (w indent : Nat) (e : Expr) : Bool :=
   !hasNewline (fmtSingle e) && decide (indent + blen (firstLine (fmtSingle e)) ≤ w)
 
-/-- the layout `format_binary_op_multiline` writes in front of the operator: a line feed and
-    `indent + 2` blanks -/
+/-- the layout `format_binary_op_multiline` writes in front of the operator, and
+    `format_call_multiline` in front of every argument: a line feed and `indent + 2` blanks -/
 def breakLay (indent : Nat) : Lay := .lf :: List.replicate (indent + INDENT_SIZE) .sp
 
-/-- the concrete syntax tree `format_expr_impl` writes for a tree of the operator fragment -/
+/-! ### the single-line form of the formatter (`format_single_line`) as a CST
+
+  `format_single_line` differs from `expr_to_source` in one place that matters here: a lambda
+  with ONE required parameter is written `x => e` (`lambdaArgsPart`), not `(x) => e` — but only
+  where `format_single_line` itself descends (lambda bodies, call arguments, list items); below
+  any other node it hands over to `expr_to_source`.  `canonF t` is that text as a CST; resetting
+  its layout (`normalize` also restores the parentheses of the parameter list) gives `canon t`. -/
+
+/-- the parameter list `format_single_line` / `format_lambda` write -/
+def headF : List LArg → LamHead
+  | [.req n] => .bare (.req n)
+  | args => headOf args
+
+theorem headF_args (args : List LArg) : (headF args).args = args := by
+  unfold headF
+  split
+  · rfl
+  · exact headOf_args _
+
+theorem headF_text (args : List LArg) : (headF args).text = (lambdaArgsPart args).toList := by
+  unfold headF lambdaArgsPart
+  split
+  · simp [LamHead.text, argText]
+  · rename_i hne
+    split
+    · rename_i n; exact absurd rfl (hne n)
+    · simp only [headOf_text, String.toList_append, String.toList_intercalate, commaSp,
+        List.map_map, Function.comp_def, argText_src, List.append_assoc]
+      rfl
+
+theorem headF_ok (args : List LArg) : (headF args).ok = true := by
+  unfold headF
+  split
+  · rfl
+  · exact headOf_ok _
+
+theorem headF_namesOk {args : List LArg} (h : (args.all fun a => nameOk a.name) = true) :
+    (headF args).namesOk = true := by
+  simp only [LamHead.namesOk, headF_args, h, Bool.true_and]
+  cases args with
+  | nil => rfl
+  | cons a as =>
+    cases as with
+    | nil => cases a <;> rfl
+    | cons b bs => cases a <;> rfl
+
+mutual
+/-- `format_single_line` as a CST -/
+def canonF : Expr → CST
+  | .lambda args body =>
+    .lambda (headF args) [.sp] [.sp] (wrap (lambdaBodyNeedsParens body) (canonF body))
+  | .call f args => mkCall (wrap (needsParens f .postfix_) (canonF f)) (canonFArgs args)
+  | .list items => mkList (canonFItems items)
+  /- only reached from `canonFArgs`: below a spread `format_single_line` is `expr_to_source` -/
+  | .spread e => canon e
+  | e => canon e
+def canonFArgs : List Expr → List (Bool × CST)
+  | [] => []
+  | a :: rest => (isSpread a, canonF a) :: canonFArgs rest
+def canonFItems : List Item → List (Bool × CST)
+  | [] => []
+  | (.mk _ e _) :: rest => (isSpread e, canonF e) :: canonFItems rest
+end
+
+mutual
+theorem canonF_normalize : ∀ t : Expr, (canonF t).normalize = canon t
+  | .lambda args body => by
+    simp only [canonF, canon, CST.normalize, headF_args, wrap_normalize', canonF_normalize body]
+  | .call f args => by
+    simp only [canonF, canon, mkCall_normalize, wrap_normalize', canonF_normalize f,
+      canonFArgs_normalize args]
+  | .list items => by simp only [canonF, canon, mkList_normalize, canonFItems_normalize items]
+  | .spread e => by simp only [canonF, canon, canon_normalize e]
+  | .bin .. | .un .. | .fact .. | .access .. | .dot .. | .cond .. | .ident _ | .builtin _ | .bool _
+  | .null | .num _ | .str _ | .inref _ | .record _ | .doBlock .. | .assign .. | .output _ => by
+    simp only [canonF]; exact canon_normalize _
+theorem canonFArgs_normalize : ∀ args : List Expr, (canonFArgs args).map normPair = canonArgs args
+  | [] => rfl
+  | a :: rest => by
+    simp only [canonFArgs, canonArgs, List.map_cons, normPair, canonF_normalize a,
+      canonFArgs_normalize rest]
+theorem canonFItems_normalize : ∀ items : List Item,
+    (canonFItems items).map normPair = canonItems items
+  | [] => rfl
+  | (.mk _ e _) :: rest => by
+    simp only [canonFItems, canonItems, List.map_cons, normPair, canonF_normalize e,
+      canonFItems_normalize rest]
+end
+
+mutual
+theorem canonF_layout : ∀ t : Expr, (canonF t).LayoutOk
+  | .lambda args body => ⟨headF_ok args, rfl, wrap_layout (canonF_layout body)⟩
+  | .call f args => mkCall_layout (wrap_layout (canonF_layout f)) (canonFArgs_layout args)
+  | .list items => mkList_layout (canonFItems_layout items)
+  | .spread e => canon_layout e
+  | .bin .. | .un .. | .fact .. | .access .. | .dot .. | .cond .. | .ident _ | .builtin _ | .bool _
+  | .null | .num _ | .str _ | .inref _ | .record _ | .doBlock .. | .assign .. | .output _ => by
+    simp only [canonF]; exact canon_layout _
+theorem canonFArgs_layout : ∀ (args : List Expr), ∀ q ∈ canonFArgs args, q.2.LayoutOk
+  | [] => by intro q hq; cases hq
+  | a :: rest => by
+    intro q hq
+    simp only [canonFArgs, List.mem_cons] at hq
+    rcases hq with rfl | hq
+    · exact canonF_layout a
+    · exact canonFArgs_layout rest q hq
+theorem canonFItems_layout : ∀ (items : List Item), ∀ q ∈ canonFItems items, q.2.LayoutOk
+  | [] => by intro q hq; cases hq
+  | (.mk lead e tr) :: rest => by
+    intro q hq
+    simp only [canonFItems, List.mem_cons] at hq
+    rcases hq with rfl | hq
+    · exact canonF_layout e
+    · exact canonFItems_layout rest q hq
+end
+
+theorem canonF_relayout (t : Expr) : Relayout t (canonF t) := ⟨canonF_normalize t, canonF_layout t⟩
+
+/-- the arguments of `format_call_multiline`: each on its own line -/
+def mkArgsML (indent : Nat) : Bool × CST → List (Bool × CST) → Args
+  | p, [] => .last p.1 p.2
+  | p, q :: rest => .cons p.1 p.2 [] (breakLay indent) (mkArgsML indent q rest)
+
+/-- `format_call_multiline`: `f()` or `f(⏎ a,⏎ b,⏎)` -/
+def mkCallML (indent : Nat) (f : CST) : List (Bool × CST) → CST
+  | [] => .call0 f []
+  | p :: rest =>
+    .call f (breakLay indent) (mkArgsML indent p rest)
+      (.comma [] (.lf :: List.replicate indent .sp))
+
+/-- `format_list_multiline` (no comments): `[]` or `[⏎ a,⏎ b,⏎]` -/
+def mkListML (indent : Nat) : List (Bool × CST) → CST
+  | [] => .list0 []
+  | p :: rest =>
+    .list (breakLay indent) (mkArgsML indent p rest) (.comma [] (.lf :: List.replicate indent .sp))
+
+/-- a line feed and `indent` blanks: in front of `then` / `else` of a multi-line conditional -/
+def nlLay (indent : Nat) : Lay := .lf :: List.replicate indent .sp
+
+/-- `format_conditional_multiline`: `if c then⏎ t⏎ else…` when `if c then` fits on the line,
+    else `if c⏎ then⏎ t⏎ else…` with the condition one level deeper; `l4` / `eC` = what
+    `else` is followed by (a blank and the chained conditional, or a line break and the
+    else-expression one level deeper) -/
+def condCST (indent : Nat) (head : Bool) (cC cIn tIn : CST) (l4 : Lay) (eC : CST) : CST :=
+  if head then .cond [.sp] cC [.sp] (breakLay indent) tIn (nlLay indent) l4 eC
+  else .cond [.sp] cIn (nlLay indent) (breakLay indent) tIn (nlLay indent) l4 eC
+
+/-- the test of `binLayout` for `via` / `into` / `where` with a lambda on the right: the left
+    operand, the operator and the FIRST LINE of the lambda fit on the line -/
+def chainFits (w indent : Nat) (op : BinOp) (l r : Expr) : Bool :=
+  decide (indent + blen (render (parenP (needsParens l (.binLeft op)) (fmtImplP w indent l)) ++ " " ++
+    fmtSpelling op ++ " " ++
+    firstLine (render (parenP (needsParens r (.binRight op)) (fmtImplP w indent r)))) ≤ w)
+
+/-- the test of `format_lambda`: head, `=>` and the body formatted at the same indent are one
+    line that fits -/
+def lamFits (w indent : Nat) (args : List LArg) (body : Expr) : Bool :=
+  !hasNewline (lambdaArgsPart args ++ " =>" ++ " " ++ render (fmtImplP w indent body)) &&
+    decide (indent + blen (lambdaArgsPart args ++ " =>" ++ " " ++ render (fmtImplP w indent body)) ≤ w)
+
+/-- `via` / `into` / `where` -/
+def chainOp (op : BinOp) : Bool := op == .via || op == .into || op == .where_
+
+/-- the test of `condLayout`: `if c then` fits on the line -/
+def condHeadFits (w indent : Nat) (c : Expr) : Bool :=
+  decide (indent + blen ("if " ++ fmtImpl w indent c ++ " then") ≤ w)
+
+mutual
+/-- the concrete syntax tree `format_expr_impl` writes for a tree of the fragment -/
 def fmtCST (w indent : Nat) : Expr → CST
   | .bin op l r =>
-    if fits w indent (.bin op l r) then canon (.bin op l r)
+    if fits w indent (.bin op l r) then canonF (.bin op l r)
+    else if chainOp op && isLambda r then
+      .bin op (wrap (needsParens l (.binLeft op)) (fmtCST w indent l))
+        (if chainFits w indent op l r then [.sp] else nlLay indent) [.sp]
+        (wrap (needsParens r (.binRight op)) (fmtCST w indent r))
     else
       .bin op (wrap (needsParens l (.binLeft op)) (fmtCST w indent l)) (breakLay indent) [.sp]
         (wrap (needsParens r (.binRight op)) (fmtCST w (indent + INDENT_SIZE) r))
   | .un op e =>
-    if fits w indent (.un op e) then canon (.un op e)
+    if fits w indent (.un op e) then canonF (.un op e)
     else .un op (wrap (needsParens e .prefix_) (fmtCST w indent e))
   | .fact e =>
-    if fits w indent (.fact e) then canon (.fact e)
+    if fits w indent (.fact e) then canonF (.fact e)
     else .fact (wrap (needsParens e .postfix_) (fmtCST w indent e))
+  | .call f args =>
+    if fits w indent (.call f args) then canonF (.call f args)
+    else
+      mkCallML indent (wrap (needsParens f .postfix_) (fmtCST w indent f))
+        (fmtArgsCST w (indent + INDENT_SIZE) args)
+  | .access e i =>
+    if fits w indent (.access e i) then canonF (.access e i)
+    else .access (wrap (needsParens e .postfix_) (fmtCST w indent e)) [] (fmtCST w indent i) []
+  | .dot e n =>
+    if fits w indent (.dot e n) then canonF (.dot e n)
+    else .dot (wrap (needsParens e .postfix_) (fmtCST w indent e)) n
+  | .list items =>
+    if fits w indent (.list items) then canonF (.list items)
+    else mkListML indent (fmtItemsCST w (indent + INDENT_SIZE) items)
+  | .cond c t e =>
+    if fits w indent (.cond c t e) then canonF (.cond c t e)
+    else
+      condCST indent (condHeadFits w indent c) (fmtCST w indent c)
+        (fmtCST w (indent + INDENT_SIZE) c) (fmtCST w (indent + INDENT_SIZE) t)
+        (match fmtChainCST w indent e with | some _ => [.sp] | none => breakLay indent)
+        (match fmtChainCST w indent e with
+         | some x => x
+         | none => fmtCST w (indent + INDENT_SIZE) e)
+  /- only reached from `fmtArgsCST`: the operand of a spread argument -/
+  | .spread e => if fits w indent (.spread e) then canon e else fmtCST w indent e
+  | .lambda args body =>
+    if lambdaBodyNeedsParens body then
+      .lambda (headF args) [.sp] [.sp] (.paren [] (fmtCST w indent body) [])
+    else if lamFits w indent args body then .lambda (headF args) [.sp] [.sp] (fmtCST w indent body)
+    else .lambda (headF args) [.sp] (breakLay indent) (fmtCST w (indent + INDENT_SIZE) body)
   | .ident n => canon (.ident n)
   | .builtin n => canon (.builtin n)
   | .bool b => canon (.bool b)
   | .null => canon .null
   | .num x => canon (.num x)
   | e => canon e
+def fmtArgsCST (w inner : Nat) : List Expr → List (Bool × CST)
+  | [] => []
+  | a :: rest => (isSpread a, fmtCST w inner a) :: fmtArgsCST w inner rest
+def fmtItemsCST (w inner : Nat) : List Item → List (Bool × CST)
+  | [] => []
+  | (.mk _ e _) :: rest => (isSpread e, fmtCST w inner e) :: fmtItemsCST w inner rest
+/-- the `else if …` chain: the multi-line layout of an else-expression that is itself a
+    conditional, at the same indent and without the single-line test (`fmtChainP`) -/
+def fmtChainCST (w indent : Nat) : Expr → Option CST
+  | .cond c t e =>
+    some (condCST indent (condHeadFits w indent c) (fmtCST w indent c)
+      (fmtCST w (indent + INDENT_SIZE) c) (fmtCST w (indent + INDENT_SIZE) t)
+      (match fmtChainCST w indent e with | some _ => [.sp] | none => breakLay indent)
+      (match fmtChainCST w indent e with
+       | some x => x
+       | none => fmtCST w (indent + INDENT_SIZE) e))
+  | _ => none
+end
 
 /-! ### fragment trees: no comments, no lambda; single-line text = `expr_to_source` -/
 
 theorem frag_bin {op : BinOp} {l r : Expr} (h : Frag (.bin op l r)) : Frag l ∧ Frag r := by
-  simpa [Frag, frag] using h
+  simpa [Frag, frag_bin_iff] using h
 
 theorem frag_un {op : UnOp} {e : Expr} (h : Frag (.un op e)) : op ≠ .invert ∧ Frag e := by
-  simpa [Frag, frag] using h
+  simpa [Frag, frag_un_iff] using h
 
 theorem frag_fact {e : Expr} (h : Frag (.fact e)) : Frag e := by
-  simpa [Frag, frag] using h
+  simpa [Frag, frag_fact_iff] using h
 
-theorem frag_noComments : ∀ t : Expr, Frag t → containsComments t = false
-  | .bin op l r, h => by
-    simp [containsComments, frag_noComments l (frag_bin h).1, frag_noComments r (frag_bin h).2]
-  | .un op e, h => by simp [containsComments, frag_noComments e (frag_un h).2]
-  | .fact e, h => by simp [containsComments, frag_noComments e (frag_fact h)]
-  | .ident _, _ | .builtin _, _ | .bool _, _ | .null, _ | .num _, _ => by simp [containsComments]
-  | .str _, h | .inref _, h | .list _, h | .record _, h | .lambda _ _, h | .cond _ _ _, h
-  | .doBlock _ _, h | .assign _ _, h | .output _, h | .call _ _, h | .access _ _, h | .dot _ _, h
-  | .spread _, h => by simp [Frag, frag] at h
+theorem frag_call {f : Expr} {args : List Expr} (h : Frag (.call f args)) :
+    Frag f ∧ fragArgs args = true := by
+  simpa [Frag, frag_call_iff] using h
 
-theorem frag_notLambda {t : Expr} (h : Frag t) : isLambda t = false := by
-  cases t <;> first | rfl | simp [Frag, frag] at h
+theorem frag_access {e i : Expr} (h : Frag (.access e i)) : Frag e ∧ Frag i := by
+  simpa [Frag, frag_access_iff] using h
 
-/-- `format_single_line` of a fragment tree is `expr_to_source` -/
-theorem fmtSingle_frag (t : Expr) (h : Frag t) : fmtSingle t = exprToSource t := by
-  have hc := frag_noComments t h
-  cases t <;> first | (simp [Frag, frag] at h; done) | simp [fmtSingle, hc]
+theorem frag_list {items : List Item} (h : Frag (.list items)) : fragItems items = true := by
+  simpa [Frag, frag_list_iff] using h
+
+theorem frag_dot {e : Expr} {n : String} (h : Frag (.dot e n)) : Frag e ∧ CST.fieldOk n = true := by
+  simpa [Frag, frag_dot_iff] using h
+
+mutual
+theorem fragB_noComments : ∀ (sp : Bool) (t : Expr), fragB sp t = true → containsComments t = false
+  | _, .bin op l r, h => by
+    simp only [fragB, Bool.and_eq_true] at h
+    simp [containsComments, fragB_noComments false l h.1, fragB_noComments false r h.2]
+  | _, .un op e, h => by
+    simp only [fragB, Bool.and_eq_true] at h
+    simp [containsComments, fragB_noComments false e h.2]
+  | _, .fact e, h => by
+    simp only [fragB] at h
+    simp [containsComments, fragB_noComments false e h]
+  | _, .call f args, h => by
+    simp only [fragB, Bool.and_eq_true] at h
+    simp [containsComments, fragB_noComments false f h.1, fragArgs_noComments args h.2]
+  | _, .access e i, h => by
+    simp only [fragB, Bool.and_eq_true] at h
+    simp [containsComments, fragB_noComments false e h.1, fragB_noComments false i h.2]
+  | _, .dot e n, h => by
+    simp only [fragB, Bool.and_eq_true] at h
+    simp [containsComments, fragB_noComments false e h.1]
+  | _, .spread e, h => by
+    simp only [fragB, Bool.and_eq_true] at h
+    simp [containsComments, fragB_noComments false e h.2]
+  | _, .list items, h => by
+    simp only [fragB] at h
+    simp [containsComments, fragItems_noComments items h]
+  | _, .cond c t e, h => by
+    simp only [fragB, Bool.and_eq_true] at h
+    simp [containsComments, fragB_noComments false c h.1.1, fragB_noComments false t h.1.2,
+      fragB_noComments false e h.2]
+  | _, .ident _, _ | _, .builtin _, _ | _, .bool _, _ | _, .null, _ | _, .num _, _ => by
+    simp [containsComments]
+  | _, .lambda args body, h => by
+    simp only [fragB, Bool.and_eq_true] at h
+    simp [containsComments, fragB_noComments false body h.2]
+  | _, .str _, h | _, .inref _, h | _, .record _, h
+  | _, .doBlock _ _, h | _, .assign _ _, h | _, .output _, h => by
+    simp [fragB] at h
+theorem fragArgs_noComments : ∀ args : List Expr, fragArgs args = true →
+    exprsContainComments args = false
+  | [], _ => rfl
+  | a :: rest, h => by
+    simp only [fragArgs, Bool.and_eq_true] at h
+    simp [exprsContainComments, fragB_noComments true a h.1, fragArgs_noComments rest h.2]
+theorem fragItems_noComments : ∀ items : List Item, fragItems items = true →
+    itemsHaveComments items = false
+  | [], _ => rfl
+  | (.mk lead e tr) :: rest, h => by
+    simp only [fragItems, Bool.and_eq_true, List.isEmpty_iff, Option.isNone_iff_eq_none] at h
+    obtain ⟨⟨⟨rfl, rfl⟩, he⟩, hr⟩ := h
+    simp [itemsHaveComments, itemHasOrContains, fragB_noComments true e he,
+      fragItems_noComments rest hr]
+end
+
+theorem fragItems_any : ∀ items : List Item, fragItems items = true →
+    items.any Item.hasComments = false
+  | [], _ => rfl
+  | (.mk lead e tr) :: rest, h => by
+    simp only [fragItems, Bool.and_eq_true, List.isEmpty_iff, Option.isNone_iff_eq_none] at h
+    obtain ⟨⟨⟨rfl, rfl⟩, _⟩, hr⟩ := h
+    simp [Item.hasComments, Item.leading, Item.trailing, fragItems_any rest hr]
+
+theorem frag_noComments (t : Expr) (h : Frag t) : containsComments t = false :=
+  fragB_noComments false t h
+
+theorem frag_lambda {args : List LArg} {body : Expr} (h : Frag (.lambda args body)) :
+    (args.all fun a => nameOk a.name) = true ∧ Frag body := by
+  simpa [Frag, frag_lambda_iff] using h
+
+theorem isSpread_of_frag {t : Expr} (h : Frag t) : isSpread t = false := by
+  cases t <;> first | rfl | simp [Frag, frag, fragB] at h
+
+mutual
+/-- the text of `canonF` is `format_single_line` (an argument `...e` with its `...`) -/
+theorem canonF_text : ∀ (sp : Bool) (t : Expr), fragB sp t = true →
+    spreadChars (isSpread t) ++ (canonF t).text = (fmtSingle t).toList
+  | _, .lambda args body, h => by
+    simp only [fragB, Bool.and_eq_true] at h
+    have hb := canonF_text false body h.2
+    simp only [isSpread_of_frag h.2, spreadChars, Bool.false_eq_true, if_false, List.nil_append] at hb
+    simp only [isSpread, spreadChars, Bool.false_eq_true, if_false, List.nil_append, canonF,
+      CST.text, headF_text, wrap_text, hb, fmtSingle, layChars, LayAtom.chars]
+    split <;> simp [String.toList_append]
+  | _, .call f args, h => by
+    simp only [fragB, Bool.and_eq_true] at h
+    have hf := canonF_text false f h.1
+    simp only [isSpread_of_frag h.1, spreadChars, Bool.false_eq_true, if_false, List.nil_append] at hf
+    have ha := canonFArgs_text args h.2
+    simp only [isSpread, spreadChars, Bool.false_eq_true, if_false, List.nil_append, canonF,
+      mkCall_text, wrap_text, hf, ha, fmtSingle, String.toList_append, parenIf_toList,
+      String.toList_intercalate, commaSp, List.append_assoc]
+    rfl
+  | _, .list items, h => by
+    simp only [fragB] at h
+    have ha := canonFItems_text items h
+    have hany : items.any Item.hasComments = false := fragItems_any items h
+    simp only [isSpread, spreadChars, Bool.false_eq_true, if_false, List.nil_append, canonF,
+      mkList_text, ha, fmtSingle, hany, String.toList_append, String.toList_intercalate, commaSp,
+      List.append_assoc]
+    rfl
+  | sp, .spread e, h => by
+    have hc := fragB_noComments sp _ h
+    simp only [fragB, Bool.and_eq_true] at h
+    have hs : fmtSingle (.spread e) = exprToSource (.spread e) := by simp [fmtSingle, hc]
+    simp only [isSpread, spreadChars, if_true, canonF, hs, canon_text_frag e h.2, spreadLit_eq]
+    simp [exprToSource, exprSrc]
+  | sp, .bin op l r, h => by
+    have hs : fmtSingle (.bin op l r) = exprToSource (.bin op l r) := by
+      simp [fmtSingle, fragB_noComments sp _ h]
+    have hh : Frag (.bin op l r) := by simpa [Frag, frag, fragB] using h
+    simp only [isSpread, spreadChars, Bool.false_eq_true, if_false, List.nil_append, canonF, hs]
+    exact canon_text_frag _ hh
+  | sp, .un op e, h => by
+    have hs : fmtSingle (.un op e) = exprToSource (.un op e) := by
+      simp [fmtSingle, fragB_noComments sp _ h]
+    have hh : Frag (.un op e) := by simpa [Frag, frag, fragB] using h
+    simp only [isSpread, spreadChars, Bool.false_eq_true, if_false, List.nil_append, canonF, hs]
+    exact canon_text_frag _ hh
+  | sp, .fact e, h => by
+    have hs : fmtSingle (.fact e) = exprToSource (.fact e) := by
+      simp [fmtSingle, fragB_noComments sp _ h]
+    have hh : Frag (.fact e) := by simpa [Frag, frag, fragB] using h
+    simp only [isSpread, spreadChars, Bool.false_eq_true, if_false, List.nil_append, canonF, hs]
+    exact canon_text_frag _ hh
+  | sp, .access e i, h => by
+    have hs : fmtSingle (.access e i) = exprToSource (.access e i) := by
+      simp [fmtSingle, fragB_noComments sp _ h]
+    have hh : Frag (.access e i) := by simpa [Frag, frag, fragB] using h
+    simp only [isSpread, spreadChars, Bool.false_eq_true, if_false, List.nil_append, canonF, hs]
+    exact canon_text_frag _ hh
+  | sp, .dot e n, h => by
+    have hs : fmtSingle (.dot e n) = exprToSource (.dot e n) := by
+      simp [fmtSingle, fragB_noComments sp _ h]
+    have hh : Frag (.dot e n) := by simpa [Frag, frag, fragB] using h
+    simp only [isSpread, spreadChars, Bool.false_eq_true, if_false, List.nil_append, canonF, hs]
+    exact canon_text_frag _ hh
+  | sp, .cond c t e, h => by
+    have hs : fmtSingle (.cond c t e) = exprToSource (.cond c t e) := by
+      simp [fmtSingle, fragB_noComments sp _ h]
+    have hh : Frag (.cond c t e) := by simpa [Frag, frag, fragB] using h
+    simp only [isSpread, spreadChars, Bool.false_eq_true, if_false, List.nil_append, canonF, hs]
+    exact canon_text_frag _ hh
+  | _, .ident n, h => by
+    have hh : Frag (.ident n) := by simpa [Frag, frag, fragB] using h
+    simp only [isSpread, spreadChars, Bool.false_eq_true, if_false, List.nil_append, canonF]
+    rw [canon_text_frag _ hh]; simp [fmtSingle, containsComments]
+  | _, .builtin n, h => by
+    have hh : Frag (.builtin n) := by simpa [Frag, frag, fragB] using h
+    simp only [isSpread, spreadChars, Bool.false_eq_true, if_false, List.nil_append, canonF]
+    rw [canon_text_frag _ hh]; simp [fmtSingle, containsComments]
+  | _, .bool b, h => by
+    have hh : Frag (.bool b) := by simpa [Frag, frag, fragB] using h
+    simp only [isSpread, spreadChars, Bool.false_eq_true, if_false, List.nil_append, canonF]
+    rw [canon_text_frag _ hh]; simp [fmtSingle, containsComments]
+  | _, .null, h => by
+    have hh : Frag .null := by simpa [Frag, frag, fragB] using h
+    simp only [isSpread, spreadChars, Bool.false_eq_true, if_false, List.nil_append, canonF]
+    rw [canon_text_frag _ hh]; simp [fmtSingle, containsComments]
+  | _, .num x, h => by
+    have hh : Frag (.num x) := by simpa [Frag, frag, fragB] using h
+    simp only [isSpread, spreadChars, Bool.false_eq_true, if_false, List.nil_append, canonF]
+    rw [canon_text_frag _ hh]; simp [fmtSingle, containsComments]
+  | _, .str _, h | _, .inref _, h | _, .record _, h
+  | _, .doBlock _ _, h | _, .assign _ _, h | _, .output _, h => by
+    simp [fragB] at h
+theorem canonFArgs_text : ∀ args : List Expr, fragArgs args = true →
+    (canonFArgs args).map argS = (fmtSingleList args).map String.toList
+  | [], _ => rfl
+  | a :: rest, h => by
+    simp only [fragArgs, Bool.and_eq_true] at h
+    simp only [canonFArgs, fmtSingleList, List.map_cons, argS, canonF_text true a h.1,
+      canonFArgs_text rest h.2]
+theorem canonFItems_text : ∀ items : List Item, fragItems items = true →
+    (canonFItems items).map argS = (fmtSingleItems items).map String.toList
+  | [], _ => rfl
+  | (.mk lead e tr) :: rest, h => by
+    simp only [fragItems, Bool.and_eq_true] at h
+    simp only [canonFItems, fmtSingleItems, fmtSingleItem, List.map_cons, argS,
+      canonF_text true e h.1.2, canonFItems_text rest h.2]
+end
+
+theorem canonF_text_frag (t : Expr) (h : Frag t) : (canonF t).text = (fmtSingle t).toList := by
+  have := canonF_text false t h
+  simpa [isSpread_of_frag h, spreadChars] using this
+
+/-- without lambdas `format_single_line` is `expr_to_source` -/
+theorem fmtSingle_eq_canonF (t : Expr) (h : Frag t) : fmtSingle t = String.ofList (canonF t).text := by
+  rw [canonF_text_frag t h, String.ofList_toList]
 
 /-! ### rendering -/
 
@@ -128,6 +541,68 @@ theorem fmtImplP_fact (w indent : Nat) (e : Expr) :
       else parenP (needsParens e .postfix_) (fmtImplP w indent e) ++ [.text "!"] := by
   rw [fmtImplP]; rfl
 
+theorem fmtImplP_call (w indent : Nat) (f : Expr) (args : List Expr) :
+    fmtImplP w indent (.call f args) =
+      if fits w indent (.call f args) then [.text (fmtSingle (.call f args))]
+      else if args.isEmpty then
+        parenP (needsParens f .postfix_) (fmtImplP w indent f) ++ [.text "()"]
+      else parenP (needsParens f .postfix_) (fmtImplP w indent f) ++
+        .text "(" :: (fmtArgsP w (indent + INDENT_SIZE) args ++
+          [.text ("\n" ++ makeIndent indent ++ ")")]) := by
+  rw [fmtImplP]; rfl
+
+theorem fmtImplP_access (w indent : Nat) (e i : Expr) :
+    fmtImplP w indent (.access e i) =
+      if fits w indent (.access e i) then [.text (fmtSingle (.access e i))]
+      else parenP (needsParens e .postfix_) (fmtImplP w indent e) ++
+        .text "[" :: (fmtImplP w indent i ++ [.text "]"]) := by
+  rw [fmtImplP]; rfl
+
+theorem fmtImplP_dot (w indent : Nat) (e : Expr) (n : String) :
+    fmtImplP w indent (.dot e n) =
+      if fits w indent (.dot e n) then [.text (fmtSingle (.dot e n))]
+      else parenP (needsParens e .postfix_) (fmtImplP w indent e) ++ [.text ("." ++ n)] := by
+  rw [fmtImplP]; rfl
+
+theorem fmtImplP_list (w indent : Nat) (items : List Item) :
+    fmtImplP w indent (.list items) =
+      if fits w indent (.list items) then [.text (fmtSingle (.list items))]
+      else if items.isEmpty then [.text "[]"]
+      else .text "[" :: (fmtItemsP w (indent + INDENT_SIZE) items ++
+        [.text ("\n" ++ makeIndent indent ++ "]")]) := by
+  rw [fmtImplP]; rfl
+
+theorem fmtImplP_cond (w indent : Nat) (c t e : Expr) :
+    fmtImplP w indent (.cond c t e) =
+      if fits w indent (.cond c t e) then [.text (fmtSingle (.cond c t e))]
+      else condLayout w indent (fmtImplP w indent c) (fun _ => fmtImplP w (indent + INDENT_SIZE) c)
+        (fmtImplP w (indent + INDENT_SIZE) t)
+        (elseLayout indent (fmtChainP w indent e) (fun _ => fmtImplP w (indent + INDENT_SIZE) e)) := by
+  rw [fmtImplP]; rfl
+
+theorem fmtChainP_cond (w indent : Nat) (c t e : Expr) :
+    fmtChainP w indent (.cond c t e) =
+      some (condLayout w indent (fmtImplP w indent c) (fun _ => fmtImplP w (indent + INDENT_SIZE) c)
+        (fmtImplP w (indent + INDENT_SIZE) t)
+        (elseLayout indent (fmtChainP w indent e) (fun _ => fmtImplP w (indent + INDENT_SIZE) e))) := by
+  rw [fmtChainP]
+
+theorem fmtChain_none {w indent : Nat} {t : Expr} (h : fmtChainCST w indent t = none) :
+    fmtChainP w indent t = none := by
+  cases t <;> first | (simp [fmtChainCST] at h; done) | (simp [fmtChainP])
+
+theorem fmtImplP_lambda (w indent : Nat) (args : List LArg) (body : Expr) :
+    fmtImplP w indent (.lambda args body) =
+      lambdaLayout w indent args body (fmtImplP w indent body)
+        (fun _ => fmtImplP w (indent + INDENT_SIZE) body) := by
+  rw [fmtImplP]
+
+theorem fmtImplP_spread (w indent : Nat) (e : Expr) :
+    fmtImplP w indent (.spread e) =
+      if fits w indent (.spread e) then [.text (fmtSingle (.spread e))]
+      else .text "..." :: fmtImplP w indent e := by
+  rw [fmtImplP]; rfl
+
 /-- a leaf is printed by `expr_to_source` on both branches -/
 theorem fmtImpl_leaf (w indent : Nat) (e : Expr) (h : fmtSingle e = exprToSource e) :
     render (leafP w indent e) = exprToSource e := by
@@ -137,114 +612,700 @@ theorem fmtImpl_leaf (w indent : Nat) (e : Expr) (h : fmtSingle e = exprToSource
 
 /-! ### `fmtCST` is a re-layout of the printer's tree -/
 
-theorem wrap_normalize' (b : Bool) (c : CST) : (wrap b c).normalize = wrap b c.normalize := by
-  cases b <;> rfl
-
 /-- a line break and blanks in front of the operator, one blank behind it: admissible for
     every operator, word or symbol -/
 theorem layOk_break (op : BinOp) (indent : Nat) : CST.layOk op (breakLay indent) [.sp] = true := by
   cases h : isWordOp op <;> simp [CST.layOk, h, breakLay, wsOnly, LayAtom.isWs]
 
-theorem fmtCST_normalize : ∀ (t : Expr) (w indent : Nat), Frag t →
-    (fmtCST w indent t).normalize = canon t
-  | .bin op l r, w, indent, h => by
-    unfold fmtCST
-    split
-    · exact canon_normalize _ h
-    · simp only [CST.normalize, wrap_normalize', fmtCST_normalize l w indent (frag_bin h).1,
-        fmtCST_normalize r w (indent + INDENT_SIZE) (frag_bin h).2, canon]
-  | .un op e, w, indent, h => by
-    unfold fmtCST
-    split
-    · exact canon_normalize _ h
-    · simp only [CST.normalize, wrap_normalize', fmtCST_normalize e w indent (frag_un h).2, canon]
-  | .fact e, w, indent, h => by
-    unfold fmtCST
-    split
-    · exact canon_normalize _ h
-    · simp only [CST.normalize, wrap_normalize', fmtCST_normalize e w indent (frag_fact h), canon]
-  | .ident _, _, _, _ | .builtin _, _, _, _ | .bool _, _, _, _ | .null, _, _, _ | .num _, _, _, _ => rfl
-  | .str _, _, _, h | .inref _, _, _, h | .list _, _, _, h | .record _, _, _, h
-  | .lambda _ _, _, _, h | .cond _ _ _, _, _, h | .doBlock _ _, _, _, h | .assign _ _, _, _, h
-  | .output _, _, _, h | .call _ _, _, _, h | .access _ _, _, _, h | .dot _ _, _, _, h
-  | .spread _, _, _, h => by simp [Frag, frag] at h
+/-- one blank, or a line break and `indent` blanks, in front of the operator; one blank behind -/
+theorem layOk_chain (op : BinOp) (w indent : Nat) (l r : Expr) :
+    CST.layOk op (if chainFits w indent op l r then [.sp] else nlLay indent) [.sp] = true := by
+  cases h : isWordOp op <;> cases chainFits w indent op l r <;>
+    simp [CST.layOk, h, nlLay, wsOnly, LayAtom.isWs]
 
+theorem mkArgsML_normalize (indent : Nat) : ∀ (ps : List (Bool × CST)) (p : Bool × CST),
+    CST.normArgs (mkArgsML indent p ps) = mkArgs (normPair p) (ps.map normPair)
+  | [], _ => rfl
+  | q :: ps, _ => by
+    simp only [mkArgsML, mkArgs, CST.normArgs, mkArgsML_normalize indent ps q, List.map_cons, normPair]
+
+theorem mkCallML_normalize (indent : Nat) (f : CST) (ps : List (Bool × CST)) :
+    (mkCallML indent f ps).normalize = mkCall f.normalize (ps.map normPair) := by
+  cases ps with
+  | nil => rfl
+  | cons p ps => simp only [mkCallML, mkCall, CST.normalize, mkArgsML_normalize, List.map_cons]
+
+theorem condCST_normalize (indent : Nat) (head : Bool) {cC cIn tIn eC : CST} (l4 : Lay) {X : CST}
+    (h1 : cC.normalize = X) (h2 : cIn.normalize = X) :
+    (condCST indent head cC cIn tIn l4 eC).normalize =
+      .cond [.sp] X [.sp] [.sp] tIn.normalize [.sp] [.sp] eC.normalize := by
+  cases head <;> simp [condCST, CST.normalize, h1, h2]
+
+theorem mkListML_normalize (indent : Nat) (ps : List (Bool × CST)) :
+    (mkListML indent ps).normalize = mkList (ps.map normPair) := by
+  cases ps with
+  | nil => rfl
+  | cons p ps => simp only [mkListML, mkList, CST.normalize, mkArgsML_normalize, List.map_cons]
+
+mutual
+theorem fmtCST_normalize : ∀ (t : Expr) (w indent : Nat), (fmtCST w indent t).normalize = canon t
+  | .bin op l r, w, indent => by
+    unfold fmtCST
+    split
+    · exact canonF_normalize _
+    · split
+      · simp only [CST.normalize, wrap_normalize', fmtCST_normalize l w indent,
+          fmtCST_normalize r w indent, canon]
+      · simp only [CST.normalize, wrap_normalize', fmtCST_normalize l w indent,
+          fmtCST_normalize r w (indent + INDENT_SIZE), canon]
+  | .un op e, w, indent => by
+    unfold fmtCST
+    split
+    · exact canonF_normalize _
+    · simp only [CST.normalize, wrap_normalize', fmtCST_normalize e w indent, canon]
+  | .fact e, w, indent => by
+    unfold fmtCST
+    split
+    · exact canonF_normalize _
+    · simp only [CST.normalize, wrap_normalize', fmtCST_normalize e w indent, canon]
+  | .call f args, w, indent => by
+    unfold fmtCST
+    split
+    · exact canonF_normalize _
+    · simp only [mkCallML_normalize, wrap_normalize', fmtCST_normalize f w indent,
+        fmtArgsCST_normalize args w (indent + INDENT_SIZE), canon]
+  | .access e i, w, indent => by
+    unfold fmtCST
+    split
+    · exact canonF_normalize _
+    · simp only [CST.normalize, wrap_normalize', fmtCST_normalize e w indent,
+        fmtCST_normalize i w indent, canon]
+  | .dot e n, w, indent => by
+    unfold fmtCST
+    split
+    · exact canonF_normalize _
+    · simp only [CST.normalize, wrap_normalize', fmtCST_normalize e w indent, canon]
+  | .spread e, w, indent => by
+    unfold fmtCST
+    split
+    · simp only [canon, canon_normalize e]
+    · simp only [fmtCST_normalize e w indent, canon]
+  | .list items, w, indent => by
+    unfold fmtCST
+    split
+    · exact canonF_normalize _
+    · simp only [mkListML_normalize, fmtItemsCST_normalize items w (indent + INDENT_SIZE), canon]
+  | .cond c t e, w, indent => by
+    unfold fmtCST
+    split
+    · exact canonF_normalize _
+    · rw [condCST_normalize indent _ _ (fmtCST_normalize c w indent)
+        (fmtCST_normalize c w (indent + INDENT_SIZE)), fmtCST_normalize t w (indent + INDENT_SIZE)]
+      have he : (match fmtChainCST w indent e with
+          | some x => x
+          | none => fmtCST w (indent + INDENT_SIZE) e).normalize = canon e := by
+        cases hch : fmtChainCST w indent e with
+        | some x => exact fmtChainCST_normalize e w indent x hch
+        | none => exact fmtCST_normalize e w (indent + INDENT_SIZE)
+      rw [he]; rfl
+  | .ident _, _, _ | .builtin _, _, _ | .bool _, _, _ | .null, _, _ | .num _, _, _ => rfl
+  | .lambda args body, w, indent => by
+    unfold fmtCST
+    split
+    · rename_i hb
+      simp only [CST.normalize, headF_args, fmtCST_normalize body w indent, canon, hb, wrap, if_true]
+    · rename_i hb
+      split
+      · simp only [CST.normalize, headF_args, fmtCST_normalize body w indent, canon, hb, wrap,
+          Bool.false_eq_true, if_false]
+      · simp only [CST.normalize, headF_args, fmtCST_normalize body w (indent + INDENT_SIZE),
+          canon, hb, wrap, Bool.false_eq_true, if_false]
+  | .str _, _, _ | .inref _, _, _ | .record _, _, _
+  | .doBlock _ _, _, _ | .assign _ _, _, _
+  | .output _, _, _ => rfl
+theorem fmtChainCST_normalize : ∀ (t : Expr) (w indent : Nat) (x : CST),
+    fmtChainCST w indent t = some x → x.normalize = canon t
+  | .cond c t e, w, indent, x, h => by
+    simp only [fmtChainCST, Option.some.injEq] at h
+    subst h
+    rw [condCST_normalize indent _ _ (fmtCST_normalize c w indent)
+      (fmtCST_normalize c w (indent + INDENT_SIZE)), fmtCST_normalize t w (indent + INDENT_SIZE)]
+    have he : (match fmtChainCST w indent e with
+        | some x => x
+        | none => fmtCST w (indent + INDENT_SIZE) e).normalize = canon e := by
+      cases hch : fmtChainCST w indent e with
+      | some x => exact fmtChainCST_normalize e w indent x hch
+      | none => exact fmtCST_normalize e w (indent + INDENT_SIZE)
+    rw [he]; rfl
+  | .bin .., _, _, _, h | .un .., _, _, _, h | .fact .., _, _, _, h | .call .., _, _, _, h
+  | .access .., _, _, _, h | .dot .., _, _, _, h | .spread .., _, _, _, h | .list .., _, _, _, h
+  | .ident _, _, _, _, h | .builtin _, _, _, _, h | .bool _, _, _, _, h | .null, _, _, _, h
+  | .num _, _, _, _, h | .lambda .., _, _, _, h | .str _, _, _, _, h | .inref _, _, _, _, h
+  | .record _, _, _, _, h | .doBlock .., _, _, _, h | .assign .., _, _, _, h
+  | .output _, _, _, _, h => by simp [fmtChainCST] at h
+theorem fmtArgsCST_normalize : ∀ (args : List Expr) (w inner : Nat),
+    (fmtArgsCST w inner args).map normPair = canonArgs args
+  | [], _, _ => rfl
+  | a :: rest, w, inner => by
+    simp only [fmtArgsCST, canonArgs, List.map_cons, normPair, fmtCST_normalize a w inner,
+      fmtArgsCST_normalize rest w inner]
+theorem fmtItemsCST_normalize : ∀ (items : List Item) (w inner : Nat),
+    (fmtItemsCST w inner items).map normPair = canonItems items
+  | [], _, _ => rfl
+  | (.mk _ e _) :: rest, w, inner => by
+    simp only [fmtItemsCST, canonItems, List.map_cons, normPair, fmtCST_normalize e w inner,
+      fmtItemsCST_normalize rest w inner]
+end
+
+theorem mkArgsML_layout (indent : Nat) : ∀ (ps : List (Bool × CST)) (p : Bool × CST),
+    p.2.LayoutOk → (∀ q ∈ ps, q.2.LayoutOk) → CST.ArgsLayoutOk (mkArgsML indent p ps)
+  | [], _, hp, _ => hp
+  | q :: ps, _, hp, h =>
+    ⟨hp, rfl, mkArgsML_layout indent ps q (h q List.mem_cons_self)
+      (fun x hx => h x (List.mem_cons_of_mem _ hx))⟩
+
+theorem mkCallML_layout {indent : Nat} {f : CST} {ps : List (Bool × CST)} (hf : f.LayoutOk)
+    (h : ∀ q ∈ ps, q.2.LayoutOk) : (mkCallML indent f ps).LayoutOk := by
+  cases ps with
+  | nil => exact hf
+  | cons p ps =>
+    exact ⟨hf, mkArgsML_layout indent ps p (h p List.mem_cons_self)
+      (fun x hx => h x (List.mem_cons_of_mem _ hx)), rfl⟩
+
+theorem condCST_layout {indent : Nat} {head : Bool} {cC cIn tIn eC : CST} {l4 : Lay} (h1 : cC.LayoutOk)
+    (h2 : cIn.LayoutOk) (h3 : tIn.LayoutOk) (h4 : eC.LayoutOk) (hl : l4 ≠ []) :
+    (condCST indent head cC cIn tIn l4 eC).LayoutOk := by
+  cases head
+  · exact ⟨⟨by simp, rfl, by simp [nlLay], by simp [breakLay], by simp [nlLay], hl⟩, h2, h3, h4⟩
+  · exact ⟨⟨by simp, rfl, by simp, by simp [breakLay], by simp [nlLay], hl⟩, h1, h3, h4⟩
+
+theorem mkListML_layout {indent : Nat} {ps : List (Bool × CST)} (h : ∀ q ∈ ps, q.2.LayoutOk) :
+    (mkListML indent ps).LayoutOk := by
+  cases ps with
+  | nil => trivial
+  | cons p ps =>
+    exact ⟨mkArgsML_layout indent ps p (h p List.mem_cons_self)
+      (fun x hx => h x (List.mem_cons_of_mem _ hx)), rfl⟩
+
+mutual
 theorem fmtCST_layout : ∀ (t : Expr) (w indent : Nat), (fmtCST w indent t).LayoutOk
   | .bin op l r, w, indent => by
     unfold fmtCST
     split
-    · exact canon_layout _
-    · exact ⟨wrap_layout (fmtCST_layout l w indent),
-        wrap_layout (fmtCST_layout r w (indent + INDENT_SIZE)), layOk_break op indent⟩
+    · exact canonF_layout _
+    · split
+      · exact ⟨wrap_layout (fmtCST_layout l w indent), wrap_layout (fmtCST_layout r w indent),
+          layOk_chain op w indent l r⟩
+      · exact ⟨wrap_layout (fmtCST_layout l w indent),
+          wrap_layout (fmtCST_layout r w (indent + INDENT_SIZE)), layOk_break op indent⟩
   | .un op e, w, indent => by
     unfold fmtCST
     split
-    · exact canon_layout _
+    · exact canonF_layout _
     · exact wrap_layout (fmtCST_layout e w indent)
   | .fact e, w, indent => by
     unfold fmtCST
     split
-    · exact canon_layout _
+    · exact canonF_layout _
     · exact wrap_layout (fmtCST_layout e w indent)
+  | .call f args, w, indent => by
+    unfold fmtCST
+    split
+    · exact canonF_layout _
+    · exact mkCallML_layout (wrap_layout (fmtCST_layout f w indent))
+        (fmtArgsCST_layout args w (indent + INDENT_SIZE))
+  | .access e i, w, indent => by
+    unfold fmtCST
+    split
+    · exact canonF_layout _
+    · exact ⟨wrap_layout (fmtCST_layout e w indent), fmtCST_layout i w indent, rfl, rfl⟩
+  | .dot e n, w, indent => by
+    unfold fmtCST
+    split
+    · exact canonF_layout _
+    · exact wrap_layout (fmtCST_layout e w indent)
+  | .spread e, w, indent => by
+    unfold fmtCST
+    split
+    · exact canon_layout _
+    · exact fmtCST_layout e w indent
+  | .list items, w, indent => by
+    unfold fmtCST
+    split
+    · exact canonF_layout _
+    · exact mkListML_layout (fmtItemsCST_layout items w (indent + INDENT_SIZE))
+  | .cond c t e, w, indent => by
+    unfold fmtCST
+    split
+    · exact canonF_layout _
+    · refine condCST_layout (fmtCST_layout c w indent) (fmtCST_layout c w (indent + INDENT_SIZE))
+        (fmtCST_layout t w (indent + INDENT_SIZE)) ?_ ?_
+      · cases hch : fmtChainCST w indent e with
+        | some x => exact fmtChainCST_layout e w indent x hch
+        | none => exact fmtCST_layout e w (indent + INDENT_SIZE)
+      · cases fmtChainCST w indent e <;> simp [breakLay]
   | .ident _, _, _ | .builtin _, _, _ | .bool _, _, _ | .null, _, _ | .num _, _, _ => trivial
-  | .str _, _, _ | .inref _, _, _ | .list _, _, _ | .record _, _, _ | .lambda _ _, _, _
-  | .cond _ _ _, _, _ | .doBlock _ _, _, _ | .assign _ _, _, _ | .output _, _, _ | .call _ _, _, _
-  | .access _ _, _, _ | .dot _ _, _, _ | .spread _, _, _ => trivial
+  | .lambda args body, w, indent => by
+    unfold fmtCST
+    split
+    · exact ⟨headF_ok args, rfl, fmtCST_layout body w indent⟩
+    · split
+      · exact ⟨headF_ok args, rfl, fmtCST_layout body w indent⟩
+      · exact ⟨headF_ok args, rfl, fmtCST_layout body w (indent + INDENT_SIZE)⟩
+  | .str _, _, _ | .inref _, _, _ | .record _, _, _
+  | .doBlock _ _, _, _ | .assign _ _, _, _ | .output _, _, _ => trivial
+theorem fmtChainCST_layout : ∀ (t : Expr) (w indent : Nat) (x : CST),
+    fmtChainCST w indent t = some x → x.LayoutOk
+  | .cond c t e, w, indent, x, h => by
+    simp only [fmtChainCST, Option.some.injEq] at h
+    subst h
+    refine condCST_layout (fmtCST_layout c w indent) (fmtCST_layout c w (indent + INDENT_SIZE))
+      (fmtCST_layout t w (indent + INDENT_SIZE)) ?_ ?_
+    · cases hch : fmtChainCST w indent e with
+      | some x => exact fmtChainCST_layout e w indent x hch
+      | none => exact fmtCST_layout e w (indent + INDENT_SIZE)
+    · cases fmtChainCST w indent e <;> simp [breakLay]
+  | .bin .., _, _, _, h | .un .., _, _, _, h | .fact .., _, _, _, h | .call .., _, _, _, h
+  | .access .., _, _, _, h | .dot .., _, _, _, h | .spread .., _, _, _, h | .list .., _, _, _, h
+  | .ident _, _, _, _, h | .builtin _, _, _, _, h | .bool _, _, _, _, h | .null, _, _, _, h
+  | .num _, _, _, _, h | .lambda .., _, _, _, h | .str _, _, _, _, h | .inref _, _, _, _, h
+  | .record _, _, _, _, h | .doBlock .., _, _, _, h | .assign .., _, _, _, h
+  | .output _, _, _, _, h => by simp [fmtChainCST] at h
+theorem fmtArgsCST_layout : ∀ (args : List Expr) (w inner : Nat),
+    ∀ q ∈ fmtArgsCST w inner args, q.2.LayoutOk
+  | [], _, _ => by intro q hq; cases hq
+  | a :: rest, w, inner => by
+    intro q hq
+    simp only [fmtArgsCST, List.mem_cons] at hq
+    rcases hq with rfl | hq
+    · exact fmtCST_layout a w inner
+    · exact fmtArgsCST_layout rest w inner q hq
+theorem fmtItemsCST_layout : ∀ (items : List Item) (w inner : Nat),
+    ∀ q ∈ fmtItemsCST w inner items, q.2.LayoutOk
+  | [], _, _ => by intro q hq; cases hq
+  | (.mk _ e _) :: rest, w, inner => by
+    intro q hq
+    simp only [fmtItemsCST, List.mem_cons] at hq
+    rcases hq with rfl | hq
+    · exact fmtCST_layout e w inner
+    · exact fmtItemsCST_layout rest w inner q hq
+end
 
-theorem fmtCST_relayout (t : Expr) (h : Frag t) (w indent : Nat) :
+theorem fmtCST_relayout (t : Expr) (_h : Frag t) (w indent : Nat) :
     Relayout t (fmtCST w indent t) :=
-  ⟨fmtCST_normalize t w indent h, fmtCST_layout t w indent⟩
+  ⟨fmtCST_normalize t w indent, fmtCST_layout t w indent⟩
 
 /-! ### … and its text is the formatter's output -/
 
-theorem fmtCST_text : ∀ (t : Expr) (w indent : Nat), Frag t →
-    (fmtCST w indent t).text = (fmtImpl w indent t).toList
-  | .bin op l r, w, indent, h => by
-    have hl := fmtCST_text l w indent (frag_bin h).1
-    have hr := fmtCST_text r w (indent + INDENT_SIZE) (frag_bin h).2
-    unfold fmtImpl at hl hr ⊢
+/-- every argument on its own line behind the line-break layout `bl`, followed by a comma -/
+def argsML (bl : List Char) : List (List Char) → List Char
+  | [] => []
+  | s :: rest => bl ++ (s ++ ',' :: argsML bl rest)
+
+theorem mkArgsML_text (indent : Nat) : ∀ (ps : List (Bool × CST)) (p : Bool × CST) (X : List Char),
+    layChars (breakLay indent) ++ (CST.argsText (mkArgsML indent p ps) ++ ',' :: X) =
+      argsML (layChars (breakLay indent)) ((p :: ps).map argS) ++ X
+  | [], p, X => by simp [mkArgsML, CST.argsText, argsML, argS]
+  | q :: ps, p, X => by
+    have ih := mkArgsML_text indent ps q X
+    simp only [List.map_cons, argsML] at ih ⊢
+    simp only [mkArgsML, CST.argsText, argS, layChars, List.nil_append, List.append_assoc,
+      List.cons_append, ih]
+
+theorem mkCallML_text (indent : Nat) (f : CST) (ps : List (Bool × CST)) :
+    (mkCallML indent f ps).text =
+      f.text ++ '(' :: (if ps.isEmpty then [')']
+        else argsML (layChars (breakLay indent)) (ps.map argS) ++
+          '\n' :: (List.replicate indent ' ' ++ [')'])) := by
+  cases ps with
+  | nil => simp [mkCallML, CST.text, layChars]
+  | cons p ps =>
+    have := mkArgsML_text indent ps p ('\n' :: (List.replicate indent ' ' ++ [')']))
+    simp only [mkCallML, CST.text, Close.text, layChars, LayAtom.chars, List.nil_append,
+      layChars_replicate_sp, List.isEmpty_cons, Bool.false_eq_true, if_false, List.cons_append,
+      List.append_assoc] at this ⊢
+    rw [this]
+
+theorem mkListML_text (indent : Nat) (ps : List (Bool × CST)) :
+    (mkListML indent ps).text =
+      '[' :: (if ps.isEmpty then [']']
+        else argsML (layChars (breakLay indent)) (ps.map argS) ++
+          '\n' :: (List.replicate indent ' ' ++ [']'])) := by
+  cases ps with
+  | nil => simp [mkListML, CST.text, layChars]
+  | cons p ps =>
+    have := mkArgsML_text indent ps p ('\n' :: (List.replicate indent ' ' ++ [']']))
+    simp only [mkListML, CST.text, Close.text, layChars, LayAtom.chars, List.nil_append,
+      layChars_replicate_sp, List.isEmpty_cons, Bool.false_eq_true, if_false, List.cons_append,
+      List.append_assoc] at this ⊢
+    rw [this]
+
+theorem layChars_nlLay (indent : Nat) :
+    layChars (nlLay indent) = '\n' :: List.replicate indent ' ' := by
+  simp [nlLay, layChars, LayAtom.chars, layChars_replicate_sp]
+
+/-- the text of the multi-line conditional CST is what `condLayout` renders -/
+theorem condCST_text (w indent : Nat) (cP : List Piece) (cIn : Unit → List Piece)
+    (tP elseP : List Piece) (cC cI tI eC : CST) (l4 : Lay)
+    (h1 : cC.text = (render cP).toList) (h2 : cI.text = (render (cIn ())).toList)
+    (h3 : tI.text = (render tP).toList)
+    (h4 : elseLit ++ (layChars l4 ++ eC.text) = (render elseP).toList) :
+    (condCST indent (decide (indent + blen ("if " ++ render cP ++ " then") ≤ w)) cC cI tI l4 eC).text =
+      (render (condLayout w indent cP cIn tP elseP)).toList := by
+  unfold condCST condLayout
+  by_cases hh : indent + blen ("if " ++ render cP ++ " then") ≤ w
+  · simp only [hh, decide_true, if_true, CST.text, render_text, render_append, String.toList_append,
+      h1, h3, ← h4, layChars_breakLay, layChars_nlLay, makeIndent_toList, layChars, LayAtom.chars,
+      thenLit, List.append_assoc, List.cons_append, List.nil_append]
+    rfl
+  · simp only [hh, decide_false, Bool.false_eq_true, if_false, CST.text, render_text, render_append,
+      String.toList_append, h2, h3, ← h4, layChars_breakLay, layChars_nlLay, makeIndent_toList,
+      layChars, LayAtom.chars, thenLit, List.append_assoc, List.cons_append, List.nil_append]
+    rfl
+
+/-- the text of the `via` / `into` / `where`-with-lambda layout of `binLayout` -/
+theorem chainCST_text (indent : Nat) (op : BinOp) (lP rP : List Piece) (bl br fit : Bool) (L R : CST)
+    (hL : L.text = (render lP).toList) (hR : R.text = (render rP).toList) :
+    (CST.bin op (wrap bl L) (if fit then [.sp] else nlLay indent) [.sp] (wrap br R)).text =
+      (render (if fit then parenP bl lP ++ .text (" " ++ fmtSpelling op ++ " ") :: parenP br rP
+        else parenP bl lP ++ .text ("\n" ++ makeIndent indent ++ fmtSpelling op ++ " ") ::
+          parenP br rP)).toList := by
+  cases fit
+  · simp only [Bool.false_eq_true, if_false, render_append, render_text, render_parenP,
+      String.toList_append, parenIf_toList, CST.text, wrap_text, hL, hR, fmtSpelling_eq, spell,
+      layChars_nlLay, makeIndent_toList, layChars, LayAtom.chars, List.append_assoc,
+      List.cons_append, List.nil_append]
+    rfl
+  · simp only [if_true, render_append, render_text, render_parenP, String.toList_append,
+      parenIf_toList, CST.text, wrap_text, hL, hR, fmtSpelling_eq, spell, layChars,
+      LayAtom.chars, List.append_assoc, List.cons_append, List.nil_append]
+    rfl
+
+/-- the text of the three layouts of `format_lambda` (the body is not a do-block) -/
+theorem lamCST_text (w indent : Nat) (args : List LArg) (body : Expr)
+    (hnd : ∀ a b, body ≠ .doBlock a b) (b : List Piece) (bIn : Unit → List Piece) (B BIn : CST)
+    (h1 : B.text = (render b).toList) (h2 : BIn.text = (render (bIn ())).toList) :
+    (if lambdaBodyNeedsParens body then
+        CST.lambda (headF args) [.sp] [.sp] (.paren [] B [])
+      else if (!hasNewline (lambdaArgsPart args ++ " =>" ++ " " ++ render b) &&
+          decide (indent + blen (lambdaArgsPart args ++ " =>" ++ " " ++ render b) ≤ w)) then
+        CST.lambda (headF args) [.sp] [.sp] B
+      else CST.lambda (headF args) [.sp] (breakLay indent) BIn).text =
+      (render (lambdaLayout w indent args body b bIn)).toList := by
+  unfold lambdaLayout
+  by_cases hp : lambdaBodyNeedsParens body = true
+  · simp only [hp, if_true, CST.text, headF_text, h1, render_text, render_append, render_single,
+      String.toList_append, layChars, LayAtom.chars, List.append_assoc, List.cons_append,
+      List.nil_append]
+    rfl
+  · simp only [hp, Bool.false_eq_true, if_false]
+    by_cases hf : (!hasNewline (lambdaArgsPart args ++ " =>" ++ " " ++ render b) &&
+        decide (indent + blen (lambdaArgsPart args ++ " =>" ++ " " ++ render b) ≤ w)) = true
+    · cases body with
+      | doBlock a b' => exact (hnd a b' rfl).elim
+      | _ =>
+        simp only [hf, if_true, CST.text, headF_text, h1, render_text, String.toList_append,
+          layChars, LayAtom.chars, List.append_assoc, List.cons_append, List.nil_append]
+        rfl
+    · cases body with
+      | doBlock a b' => exact (hnd a b' rfl).elim
+      | _ =>
+        simp only [hf, Bool.false_eq_true, if_false, CST.text, headF_text, h2, render_text,
+          String.toList_append, layChars_breakLay, makeIndent_toList, layChars, LayAtom.chars,
+          List.append_assoc, List.cons_append, List.nil_append]
+        rfl
+
+theorem spread_fragB {sp : Bool} {e : Expr} (h : fragB sp (.spread e) = true) : Frag e := by
+  simp only [fragB, Bool.and_eq_true] at h; exact h.2
+
+mutual
+theorem fmtCST_textB : ∀ (sp : Bool) (t : Expr) (w indent : Nat), fragB sp t = true →
+    spreadChars (isSpread t) ++ (fmtCST w indent t).text = (fmtImpl w indent t).toList
+  | sp, .bin op l r, w, indent, h => by
+    have hh : Frag (.bin op l r) := by simpa [Frag, frag, fragB] using h
+    have hl := fmtCST_textB false l w indent (frag_bin hh).1
+    have hr := fmtCST_textB false r w (indent + INDENT_SIZE) (frag_bin hh).2
+    have hrs := fmtCST_textB false r w indent (frag_bin hh).2
+    simp only [isSpread_of_frag (frag_bin hh).1, isSpread_of_frag (frag_bin hh).2, spreadChars,
+      Bool.false_eq_true, if_false, List.nil_append] at hl hr hrs
+    unfold fmtImpl at hl hr hrs ⊢
     rw [fmtImplP_bin]
+    simp only [isSpread, spreadChars, Bool.false_eq_true, if_false, List.nil_append]
     unfold fmtCST
     split
-    · rw [render_single, fmtSingle_frag _ h]; exact canon_text _ h
-    · simp only [binLayout, frag_notLambda (frag_bin h).2, Bool.and_false, Bool.false_eq_true,
-        if_false, render_append, render_text, render_parenP, String.toList_append, parenIf_toList,
-        CST.text, wrap_text, hl, hr, layChars_breakLay, makeIndent_toList, fmtSpelling_eq, spell,
-        layChars, LayAtom.chars, List.append_assoc, List.cons_append, List.nil_append]
-      rfl
-  | .un op e, w, indent, h => by
-    have he := fmtCST_text e w indent (frag_un h).2
+    · rw [render_single]; exact canonF_text_frag _ hh
+    · by_cases hch : (chainOp op && isLambda r) = true
+      · have hch' : ((op == .via || op == .into || op == .where_) && isLambda r) = true := hch
+        simp only [hch, if_true, binLayout, hch']
+        have := chainCST_text indent op (fmtImplP w indent l) (fmtImplP w indent r)
+          (needsParens l (.binLeft op)) (needsParens r (.binRight op)) (chainFits w indent op l r)
+          _ _ hl hrs
+        rw [this]
+        unfold chainFits
+        by_cases hfit : indent + blen (render (parenP (needsParens l (.binLeft op)) (fmtImplP w indent l)) ++
+            " " ++ fmtSpelling op ++ " " ++
+            firstLine (render (parenP (needsParens r (.binRight op)) (fmtImplP w indent r)))) ≤ w
+        · simp only [hfit, decide_true, if_true]
+        · simp only [hfit, decide_false, Bool.false_eq_true, if_false]
+      · have hch' : ((op == .via || op == .into || op == .where_) && isLambda r) = false := by
+          simpa [chainOp] using hch
+        simp only [hch, binLayout, hch', Bool.false_eq_true, if_false, render_append, render_text,
+          render_parenP, String.toList_append, parenIf_toList, CST.text, wrap_text, hl, hr,
+          layChars_breakLay, makeIndent_toList, fmtSpelling_eq, spell, layChars, LayAtom.chars,
+          List.append_assoc, List.cons_append, List.nil_append]
+        rfl
+  | sp, .un op e, w, indent, h => by
+    have hh : Frag (.un op e) := by simpa [Frag, frag, fragB] using h
+    have he := fmtCST_textB false e w indent (frag_un hh).2
+    simp only [isSpread_of_frag (frag_un hh).2, spreadChars, Bool.false_eq_true, if_false,
+      List.nil_append] at he
     unfold fmtImpl at he ⊢
     rw [fmtImplP_un]
+    simp only [isSpread, spreadChars, Bool.false_eq_true, if_false, List.nil_append]
     unfold fmtCST
     split
-    · rw [render_single, fmtSingle_frag _ h]; exact canon_text _ h
+    · rw [render_single]; exact canonF_text_frag _ hh
     · simp only [render_text, render_parenP, String.toList_append, parenIf_toList, CST.text,
         wrap_text, he]
-  | .fact e, w, indent, h => by
-    have he := fmtCST_text e w indent (frag_fact h)
+  | sp, .fact e, w, indent, h => by
+    have hh : Frag (.fact e) := by simpa [Frag, frag, fragB] using h
+    have he := fmtCST_textB false e w indent (frag_fact hh)
+    simp only [isSpread_of_frag (frag_fact hh), spreadChars, Bool.false_eq_true, if_false,
+      List.nil_append] at he
     unfold fmtImpl at he ⊢
     rw [fmtImplP_fact]
+    simp only [isSpread, spreadChars, Bool.false_eq_true, if_false, List.nil_append]
     unfold fmtCST
     split
-    · rw [render_single, fmtSingle_frag _ h]; exact canon_text _ h
+    · rw [render_single]; exact canonF_text_frag _ hh
     · simp only [render_append, render_single, render_parenP, String.toList_append, parenIf_toList,
         CST.text, wrap_text, he]
       rfl
-  | .ident n, w, indent, h => by
-    unfold fmtImpl; rw [fmtImplP, fmtImpl_leaf _ _ _ (fmtSingle_frag _ h)]; exact canon_text _ h
-  | .builtin n, w, indent, h => by
-    unfold fmtImpl; rw [fmtImplP, fmtImpl_leaf _ _ _ (fmtSingle_frag _ h)]; exact canon_text _ h
-  | .bool b, w, indent, h => by
-    unfold fmtImpl; rw [fmtImplP, fmtImpl_leaf _ _ _ (fmtSingle_frag _ h)]; exact canon_text _ h
-  | .null, w, indent, h => by
-    unfold fmtImpl; rw [fmtImplP, fmtImpl_leaf _ _ _ (fmtSingle_frag _ h)]; exact canon_text _ h
-  | .num x, w, indent, h => by
-    unfold fmtImpl; rw [fmtImplP, fmtImpl_leaf _ _ _ (fmtSingle_frag _ h)]; exact canon_text _ h
-  | .str _, _, _, h | .inref _, _, _, h | .list _, _, _, h | .record _, _, _, h
-  | .lambda _ _, _, _, h | .cond _ _ _, _, _, h | .doBlock _ _, _, _, h | .assign _ _, _, _, h
-  | .output _, _, _, h | .call _ _, _, _, h | .access _ _, _, _, h | .dot _ _, _, _, h
-  | .spread _, _, _, h => by simp [Frag, frag] at h
+  | sp, .call f args, w, indent, h => by
+    have hh : Frag (.call f args) := by simpa [Frag, frag, fragB] using h
+    have hf := fmtCST_textB false f w indent (frag_call hh).1
+    have ha := fmtArgs_text args w (indent + INDENT_SIZE) (frag_call hh).2
+    simp only [isSpread_of_frag (frag_call hh).1, spreadChars, Bool.false_eq_true, if_false,
+      List.nil_append] at hf
+    unfold fmtImpl at hf ⊢
+    rw [fmtImplP_call]
+    simp only [isSpread, spreadChars, Bool.false_eq_true, if_false, List.nil_append]
+    unfold fmtCST
+    split
+    · rw [render_single]; exact canonF_text_frag _ hh
+    · rw [mkCallML_text]
+      cases args with
+      | nil =>
+        simp only [fmtArgsCST, List.isEmpty_nil, if_true, render_append, render_single,
+          render_parenP, String.toList_append, parenIf_toList, wrap_text, hf]
+        rfl
+      | cons a rest =>
+        have hne : (fmtArgsCST w (indent + INDENT_SIZE) (a :: rest)).isEmpty = false := rfl
+        simp only [hne, List.isEmpty_cons, Bool.false_eq_true, if_false, render_append,
+          render_text, render_single, render_parenP, String.toList_append, parenIf_toList,
+          wrap_text, hf, ha, layChars_breakLay, makeIndent_toList, List.append_assoc,
+          List.cons_append]
+        rfl
+  | sp, .access e i, w, indent, h => by
+    have hh : Frag (.access e i) := by simpa [Frag, frag, fragB] using h
+    have he := fmtCST_textB false e w indent (frag_access hh).1
+    have hi := fmtCST_textB false i w indent (frag_access hh).2
+    simp only [isSpread_of_frag (frag_access hh).1, isSpread_of_frag (frag_access hh).2,
+      spreadChars, Bool.false_eq_true, if_false, List.nil_append] at he hi
+    unfold fmtImpl at he hi ⊢
+    rw [fmtImplP_access]
+    simp only [isSpread, spreadChars, Bool.false_eq_true, if_false, List.nil_append]
+    unfold fmtCST
+    split
+    · rw [render_single]; exact canonF_text_frag _ hh
+    · simp only [render_append, render_text, render_single, render_parenP, String.toList_append,
+        parenIf_toList, CST.text, wrap_text, he, hi, layChars, List.nil_append, List.append_assoc]
+      rfl
+  | sp, .dot e n, w, indent, h => by
+    have hh : Frag (.dot e n) := by simpa [Frag, frag, fragB] using h
+    have he := fmtCST_textB false e w indent (frag_dot hh).1
+    simp only [isSpread_of_frag (frag_dot hh).1, spreadChars, Bool.false_eq_true, if_false,
+      List.nil_append] at he
+    unfold fmtImpl at he ⊢
+    rw [fmtImplP_dot]
+    simp only [isSpread, spreadChars, Bool.false_eq_true, if_false, List.nil_append]
+    unfold fmtCST
+    split
+    · rw [render_single]; exact canonF_text_frag _ hh
+    · simp only [render_append, render_single, render_parenP, String.toList_append, parenIf_toList,
+        CST.text, wrap_text, he, List.append_assoc]
+      rfl
+  | sp, .spread e, w, indent, h => by
+    have hh : Frag e := spread_fragB h
+    have he := fmtCST_textB false e w indent hh
+    simp only [isSpread_of_frag hh, spreadChars, Bool.false_eq_true, if_false,
+      List.nil_append] at he
+    unfold fmtImpl at he ⊢
+    rw [fmtImplP_spread]
+    simp only [isSpread, spreadChars, if_true, spreadLit_eq]
+    unfold fmtCST
+    split
+    · have hs : fmtSingle (.spread e) = exprToSource (.spread e) := by
+        simp [fmtSingle, fragB_noComments sp _ h]
+      rw [render_single, hs, canon_text_frag _ hh]
+      simp [exprToSource, exprSrc]
+    · simp only [render_text, String.toList_append, he]
+      rfl
+  | sp, .cond c t e, w, indent, h => by
+    have hh : Frag (.cond c t e) := by simpa [Frag, frag, fragB] using h
+    have hparts : Frag c ∧ Frag t ∧ Frag e := by
+      simpa [Frag, frag_cond_iff, Bool.and_eq_true, and_assoc] using hh
+    have hc := fmtCST_textB false c w indent hparts.1
+    have hci := fmtCST_textB false c w (indent + INDENT_SIZE) hparts.1
+    have ht := fmtCST_textB false t w (indent + INDENT_SIZE) hparts.2.1
+    have he := fmtCST_textB false e w (indent + INDENT_SIZE) hparts.2.2
+    simp only [isSpread_of_frag hparts.1, isSpread_of_frag hparts.2.1,
+      isSpread_of_frag hparts.2.2, spreadChars, Bool.false_eq_true, if_false,
+      List.nil_append] at hc hci ht he
+    unfold fmtImpl at hc hci ht he ⊢
+    rw [fmtImplP_cond]
+    simp only [isSpread, spreadChars, Bool.false_eq_true, if_false, List.nil_append]
+    unfold fmtCST
+    split
+    · rw [render_single]; exact canonF_text_frag _ hh
+    · refine condCST_text w indent _ _ _ _ _ _ _ _ _ hc hci ht ?_
+      cases hch : fmtChainCST w indent e with
+      | some x =>
+        obtain ⟨ps, hps, hx⟩ := fmtChain_text e w indent x hparts.2.2 hch
+        simp only [hps, elseLayout, render_text, String.toList_append, hx, layChars, LayAtom.chars,
+          elseLit, List.append_assoc, List.cons_append, List.nil_append]
+        rfl
+      | none =>
+        simp only [fmtChain_none hch, elseLayout, render_text, String.toList_append, he,
+          layChars_breakLay, makeIndent_toList, elseLit, List.append_assoc, List.cons_append,
+          List.nil_append]
+        rfl
+  | sp, .list items, w, indent, h => by
+    have hh : Frag (.list items) := by simpa [Frag, frag, fragB] using h
+    have ha := fmtItems_text items w (indent + INDENT_SIZE) (frag_list hh)
+    unfold fmtImpl
+    rw [fmtImplP_list]
+    simp only [isSpread, spreadChars, Bool.false_eq_true, if_false, List.nil_append]
+    unfold fmtCST
+    split
+    · rw [render_single]; exact canonF_text_frag _ hh
+    · rw [mkListML_text]
+      cases items with
+      | nil =>
+        simp only [fmtItemsCST, List.isEmpty_nil, if_true, render_single]
+        rfl
+      | cons a rest =>
+        obtain ⟨lead, e, tr⟩ := a
+        have hne : (fmtItemsCST w (indent + INDENT_SIZE) (Item.mk lead e tr :: rest)).isEmpty = false := rfl
+        simp only [hne, List.isEmpty_cons, Bool.false_eq_true, if_false, render_append,
+          render_text, render_single, String.toList_append, ha, layChars_breakLay,
+          makeIndent_toList, List.append_assoc, List.cons_append]
+        rfl
+  | _, .ident n, w, indent, h => by
+    have hh : Frag (.ident n) := by simpa [Frag, frag, fragB] using h
+    unfold fmtImpl; rw [fmtImplP, fmtImpl_leaf _ _ _ (by simp [fmtSingle, containsComments])]
+    exact canon_text_frag _ hh
+  | _, .builtin n, w, indent, h => by
+    have hh : Frag (.builtin n) := by simpa [Frag, frag, fragB] using h
+    unfold fmtImpl; rw [fmtImplP, fmtImpl_leaf _ _ _ (by simp [fmtSingle, containsComments])]
+    exact canon_text_frag _ hh
+  | _, .bool b, w, indent, h => by
+    have hh : Frag (.bool b) := by simpa [Frag, frag, fragB] using h
+    unfold fmtImpl; rw [fmtImplP, fmtImpl_leaf _ _ _ (by simp [fmtSingle, containsComments])]
+    exact canon_text_frag _ hh
+  | _, .null, w, indent, h => by
+    have hh : Frag .null := by simpa [Frag, frag, fragB] using h
+    unfold fmtImpl; rw [fmtImplP, fmtImpl_leaf _ _ _ (by simp [fmtSingle, containsComments])]
+    exact canon_text_frag _ hh
+  | _, .num x, w, indent, h => by
+    have hh : Frag (.num x) := by simpa [Frag, frag, fragB] using h
+    unfold fmtImpl; rw [fmtImplP, fmtImpl_leaf _ _ _ (by simp [fmtSingle, containsComments])]
+    exact canon_text_frag _ hh
+  | sp, .lambda args body, w, indent, h => by
+    have hh : Frag (.lambda args body) := by simpa [Frag, frag, fragB] using h
+    obtain ⟨_, hb⟩ := frag_lambda hh
+    have hb1 := fmtCST_textB false body w indent hb
+    have hb2 := fmtCST_textB false body w (indent + INDENT_SIZE) hb
+    simp only [isSpread_of_frag hb, spreadChars, Bool.false_eq_true, if_false,
+      List.nil_append] at hb1 hb2
+    unfold fmtImpl at hb1 hb2 ⊢
+    rw [fmtImplP_lambda]
+    simp only [isSpread, spreadChars, Bool.false_eq_true, if_false, List.nil_append]
+    have hnd : ∀ a b, body ≠ .doBlock a b := by
+      intro a b e; subst e; simp [Frag, frag, fragB] at hb
+    unfold fmtCST lamFits
+    exact lamCST_text w indent args body hnd _ _ _ _ hb1 hb2
+  | _, .str _, _, _, h | _, .inref _, _, _, h | _, .record _, _, _, h
+  | _, .doBlock _ _, _, _, h
+  | _, .assign _ _, _, _, h | _, .output _, _, _, h => by simp [fragB] at h
+theorem fmtChain_text : ∀ (t : Expr) (w indent : Nat) (x : CST), Frag t →
+    fmtChainCST w indent t = some x →
+    ∃ ps, fmtChainP w indent t = some ps ∧ x.text = (render ps).toList
+  | .cond c t e, w, indent, x, hh, hx => by
+    have hparts : Frag c ∧ Frag t ∧ Frag e := by
+      simpa [Frag, frag_cond_iff, Bool.and_eq_true, and_assoc] using hh
+    have hc := fmtCST_textB false c w indent hparts.1
+    have hci := fmtCST_textB false c w (indent + INDENT_SIZE) hparts.1
+    have ht := fmtCST_textB false t w (indent + INDENT_SIZE) hparts.2.1
+    have he := fmtCST_textB false e w (indent + INDENT_SIZE) hparts.2.2
+    simp only [isSpread_of_frag hparts.1, isSpread_of_frag hparts.2.1,
+      isSpread_of_frag hparts.2.2, spreadChars, Bool.false_eq_true, if_false,
+      List.nil_append] at hc hci ht he
+    unfold fmtImpl at hc hci ht he
+    simp only [fmtChainCST, Option.some.injEq] at hx
+    subst hx
+    refine ⟨_, fmtChainP_cond w indent c t e, ?_⟩
+    refine condCST_text w indent _ _ _ _ _ _ _ _ _ hc hci ht ?_
+    cases hch : fmtChainCST w indent e with
+    | some x =>
+      obtain ⟨ps, hps, hx⟩ := fmtChain_text e w indent x hparts.2.2 hch
+      simp only [hps, elseLayout, render_text, String.toList_append, hx, layChars, LayAtom.chars,
+        elseLit, List.append_assoc, List.cons_append, List.nil_append]
+      rfl
+    | none =>
+      simp only [fmtChain_none hch, elseLayout, render_text, String.toList_append, he,
+        layChars_breakLay, makeIndent_toList, elseLit, List.append_assoc, List.cons_append,
+        List.nil_append]
+      rfl
+  | .bin .., _, _, _, _, h | .un .., _, _, _, _, h | .fact .., _, _, _, _, h
+  | .call .., _, _, _, _, h | .access .., _, _, _, _, h | .dot .., _, _, _, _, h
+  | .spread .., _, _, _, _, h | .list .., _, _, _, _, h | .ident _, _, _, _, _, h
+  | .builtin _, _, _, _, _, h | .bool _, _, _, _, _, h | .null, _, _, _, _, h
+  | .num _, _, _, _, _, h | .lambda .., _, _, _, _, h | .str _, _, _, _, _, h
+  | .inref _, _, _, _, _, h | .record _, _, _, _, _, h | .doBlock .., _, _, _, _, h
+  | .assign .., _, _, _, _, h | .output _, _, _, _, _, h => by simp [fmtChainCST] at h
+theorem fmtArgs_text : ∀ (args : List Expr) (w inner : Nat), fragArgs args = true →
+    (render (fmtArgsP w inner args)).toList =
+      argsML ('\n' :: List.replicate inner ' ') ((fmtArgsCST w inner args).map argS)
+  | [], _, _, _ => rfl
+  | a :: rest, w, inner, h => by
+    simp only [fragArgs, Bool.and_eq_true] at h
+    have ha := fmtCST_textB true a w inner h.1
+    have hr := fmtArgs_text rest w inner h.2
+    unfold fmtImpl at ha
+    simp only [fmtArgsP, fmtArgsCST, List.map_cons, argsML, argS, render_text, render_append,
+      String.toList_append, makeIndent_toList, ha, hr, List.append_assoc]
+    rfl
+theorem fmtItems_text : ∀ (items : List Item) (w inner : Nat), fragItems items = true →
+    (render (fmtItemsP w inner items)).toList =
+      argsML ('\n' :: List.replicate inner ' ') ((fmtItemsCST w inner items).map argS)
+  | [], _, _, _ => rfl
+  | (.mk lead e tr) :: rest, w, inner, h => by
+    simp only [fragItems, Bool.and_eq_true, List.isEmpty_iff, Option.isNone_iff_eq_none] at h
+    obtain ⟨⟨⟨rfl, rfl⟩, he⟩, hr⟩ := h
+    have ha := fmtCST_textB true e w inner he
+    have hrr := fmtItems_text rest w inner hr
+    unfold fmtImpl at ha
+    simp only [fmtItemsP, fmtItemP, leadP, trailP, List.nil_append, List.append_nil, fmtItemsCST,
+      List.map_cons, argsML, argS, render_text, render_append, String.toList_append,
+      makeIndent_toList, ha, hrr, List.append_assoc]
+    rfl
+end
+
+theorem fmtCST_text (t : Expr) (w indent : Nat) (h : Frag t) :
+    (fmtCST w indent t).text = (fmtImpl w indent t).toList := by
+  have := fmtCST_textB false t w indent h
+  simpa [isSpread_of_frag h, spreadChars] using this
 
 /-- the string `format_expr_impl` returns is the text of `fmtCST` -/
 theorem fmtImpl_eq_text (t : Expr) (h : Frag t) (w indent : Nat) :
@@ -253,14 +1314,16 @@ theorem fmtImpl_eq_text (t : Expr) (h : Frag t) (w indent : Nat) :
 
 /-! ### the two shapes of the output, as strings -/
 
-/-- where the single-line form fits, the formatter's text is the printer's -/
-theorem fmtImpl_fits (t : Expr) (h : Frag t) (w indent : Nat) (hf : fits w indent t = true) :
-    fmtImpl w indent t = exprToSource t := by
-  rw [fmtImpl_eq_text t h]
+/-- where the single-line form fits, the formatter's text is `format_single_line` (for
+    everything but a lambda at the top, which `format_expr_impl` lays out by `format_lambda`) -/
+theorem fmtImpl_fits (t : Expr) (h : Frag t) (w indent : Nat) (hf : fits w indent t = true)
+    (hl : isLambda t = false) : fmtImpl w indent t = fmtSingle t := by
+  rw [fmtImpl_eq_text t h, fmtSingle_eq_canonF t h]
   cases t <;> first
-    | (simp [Frag, frag] at h; done)
-    | (unfold fmtCST; rw [if_pos hf, canon_text _ h, String.ofList_toList])
-    | (unfold fmtCST; rw [canon_text _ h, String.ofList_toList])
+    | (simp [Frag, frag, fragB] at h; done)
+    | (simp [isLambda] at hl; done)
+    | (unfold fmtCST; rw [if_pos hf])
+    | (unfold fmtCST canonF; rfl)
 
 /-- where it does not, a binary operator goes to a new line, two columns deeper, followed by
     one blank; the operands are formatted again (the right one at the deeper indent) -/
@@ -288,6 +1351,36 @@ theorem fmtImpl_fact_break (w indent : Nat) (e : Expr) (hf : fits w indent (.fac
   unfold fmtImpl
   rw [fmtImplP_fact, hf]
   simp only [Bool.false_eq_true, if_false, render_append, render_single, render_parenP]
+
+/-- a call that does not fit: every argument on its own line two columns deeper, each followed
+    by a comma, the closing parenthesis on a line of its own (`fmtArgsP`) -/
+theorem fmtImpl_call_break (w indent : Nat) (f a : Expr) (rest : List Expr)
+    (hf : fits w indent (.call f (a :: rest)) = false) :
+    fmtImpl w indent (.call f (a :: rest)) =
+      parenIf (needsParens f .postfix_) (fmtImpl w indent f) ++ "(" ++
+        render (fmtArgsP w (indent + INDENT_SIZE) (a :: rest)) ++ "\n" ++ makeIndent indent ++ ")" := by
+  unfold fmtImpl
+  rw [fmtImplP_call, hf]
+  simp only [Bool.false_eq_true, if_false, List.isEmpty_cons, render_append, render_text,
+    render_nil, render_parenP, String.append_assoc, String.append_empty]
+
+theorem fmtImpl_access_break (w indent : Nat) (e i : Expr)
+    (hf : fits w indent (.access e i) = false) :
+    fmtImpl w indent (.access e i) =
+      parenIf (needsParens e .postfix_) (fmtImpl w indent e) ++ "[" ++ fmtImpl w indent i ++ "]" := by
+  unfold fmtImpl
+  rw [fmtImplP_access, hf]
+  simp only [Bool.false_eq_true, if_false, render_append, render_text, render_nil,
+    render_parenP, String.append_assoc, String.append_empty]
+
+theorem fmtImpl_dot_break (w indent : Nat) (e : Expr) (n : String)
+    (hf : fits w indent (.dot e n) = false) :
+    fmtImpl w indent (.dot e n) =
+      parenIf (needsParens e .postfix_) (fmtImpl w indent e) ++ "." ++ n := by
+  unfold fmtImpl
+  rw [fmtImplP_dot, hf]
+  simp only [Bool.false_eq_true, if_false, render_append, render_single, render_parenP,
+    String.append_assoc]
 
 /-! ### `format_expr` = `protect_statement_start ∘ format_expr_impl` -/
 
